@@ -370,3 +370,74 @@ func runBoolMaps() {
 		func(l *mc.Local, i int) { boolMapOne(l, cases[i]) })
 	chk.Sample("BitMatrix boolmap", boolMapCase{"boolmap", 3, 2, 0, 2})
 }
+
+// ---------------------------------------------------------------------------- dirty operands
+
+type dirtyCase struct {
+	Kind    string // "dirty-operand"
+	DstSize int
+	SrcSize int
+	Tail    int // what is appended afterwards: 0 nothing, 1 AppendBit(false), 2 AppendBits(0,3), 3 AppendBits(1,8)
+}
+
+// dirtyOne: AppendBitArray reads its argument through Get/size; an argument whose last storage word
+// carries set bits beyond its size (loaded with SetBulk from a wider word) must contribute exactly
+// its size bits - also as seen one step LATER, when further bits are appended behind them.
+func dirtyOne(l *mc.Local, c dirtyCase) {
+	dst, dm := initArray(c.DstSize, 3)
+	src := gozxing.NewBitArray(c.SrcSize)
+	sm := make([]bool, c.SrcSize)
+	for w := 0; w*32 < c.SrcSize || (w == 0 && c.SrcSize == 0 && false); w++ {
+		var v uint32
+		for k := 0; k < 32; k++ {
+			i := w*32 + k
+			if i >= c.SrcSize || i%2 == 1 {
+				v |= 1 << uint(k)
+			}
+			if i < c.SrcSize && i%2 == 1 {
+				sm[i] = true
+			}
+		}
+		src.SetBulk(w*32, v)
+	}
+	var dis string
+	pm, site := mc.Guard(func() {
+		dst.AppendBitArray(src)
+		dm.b = append(dm.b, sm...)
+		switch c.Tail {
+		case 1:
+			dst.AppendBit(false)
+			dm.b = append(dm.b, false)
+		case 2:
+			dst.AppendBits(0, 3)
+			dm.b = append(dm.b, false, false, false)
+		case 3:
+			dst.AppendBits(1, 8)
+			dm.b = append(dm.b, false, false, false, false, false, false, false, true)
+		}
+		dis = compareArray(dst, dm)
+	})
+	l.Count("evaluations", 1)
+	if pm != "" {
+		chk.Violation("C16/BitArray/panic/AppendBitArray/dirty-operand/"+site, fmt.Sprintf("%+v panics: %s", c, pm), c)
+	} else if dis != "" {
+		chk.Violation("C16/BitArray/AppendBitArray/dirty-operand", fmt.Sprintf("destination of %d bits, AppendBitArray(argument of %d bits whose last word has set bits beyond its size), then tail %d: %s", c.DstSize, c.SrcSize, c.Tail, dis), c)
+	} else {
+		l.Distinct("nontrivial", fmt.Sprint("dirty", c))
+	}
+}
+
+func runDirtyOperands() {
+	var cases []dirtyCase
+	for d := 0; d <= 100; d++ {
+		for _, sz := range []int{1, 5, 31, 32, 33, 40, 63, 64, 70} {
+			for tail := 0; tail < 4; tail++ {
+				cases = append(cases, dirtyCase{"dirty-operand", d, sz, tail})
+			}
+		}
+	}
+	chk.Range("BitArray.AppendBitArray with an argument whose padding bits are set: every destination size 0..100 x argument sizes {1,5,31,32,33,40,63,64,70} x what is appended afterwards {nothing, one clear bit, three clear bits, the byte 0x01}", len(cases),
+		func(i int) string { return fmt.Sprint(cases[i]) },
+		func(l *mc.Local, i int) { dirtyOne(l, cases[i]) })
+	chk.Sample("BitArray dirty operand", dirtyCase{"dirty-operand", 32, 5, 2})
+}
